@@ -26,6 +26,9 @@ import (
 // cancelled), a canceller, and subscriber tasks adding and removing callbacks
 // while events are being delivered.
 
+// allTypes marks a subscribe-to-all callback in the world's own bookkeeping (never passed to go-sse).
+const allTypes = "(all)"
+
 type attemptKind int
 
 const (
@@ -66,6 +69,12 @@ type readRec struct {
 	err             error
 }
 
+type callRec struct {
+	invoked, returned int
+	at, retAt         time.Duration
+	err               error
+}
+
 type retryRec struct {
 	at  time.Duration
 	seq int
@@ -75,7 +84,7 @@ type retryRec struct {
 
 type cbRec struct {
 	id          int
-	typ         string // subscription type; "*" for all
+	typ         string // subscription type; allTypes for a subscribe-to-all callback
 	all         bool
 	subInvoked  int
 	subReturned int
@@ -135,6 +144,17 @@ type clientWorld struct {
 	cbs        []*cbRec
 	cbTasks    int
 	evSeq      int
+
+	// Connect may be called several times on one Connection (an application driving reconnection
+	// itself); connect* below describe the first invocation and the last return, calls every call
+	nCalls         int
+	callGaps       []time.Duration
+	preDelay       time.Duration // between NewConnection and the first Connect
+	priorConns     int           // NewConnection calls made on the same Client before this one
+	calls          []*callRec
+	callIdx        int  // index of the call a per-call oracle is looking at
+	b1Unclear      bool // per-call view: an earlier call's connection carried a retry field
+	getBodyFailSeq int
 
 	connectInvoked, connectReturned int
 	connectErr                      error
@@ -226,7 +246,7 @@ func (w *clientWorld) genClientStream() []byte {
 			sb.WriteString("id: " + ids[ch.Weighted([]int{6, 2, 1, 2, 1, 1}, "id value")] + eol)
 		}
 		if ch.Chance(1, 3, "event field") {
-			types := []string{"a", "b", "", "message"}
+			types := []string{"a", "b", "", "message", "*", "all"}
 			sb.WriteString("event: " + types[ch.Intn(len(types), "event type")] + eol)
 		}
 		if (prop == "C12" || ch.Chance(1, 6, "retry sometimes")) && ch.Chance(1, 3, "retry field") {
@@ -300,6 +320,19 @@ func (w *clientWorld) generate() {
 		w.cancelOffset = ch.Range(0, 40, "cancel at offset")
 	case 3:
 		w.cancelTime = []time.Duration{0, time.Millisecond, 300 * time.Millisecond, 5 * time.Second, time.Minute}[ch.Intn(5, "cancel time")]
+	}
+	w.nCalls = 1
+	if prop != "C13" && ch.Chance(1, 3, "Connect called again after it returned") {
+		w.nCalls = ch.Range(2, 3, "Connect calls")
+		for i := 1; i < w.nCalls; i++ {
+			w.callGaps = append(w.callGaps, []time.Duration{0, time.Millisecond, 3 * time.Second, time.Hour}[ch.Intn(4, "gap between Connect calls")])
+		}
+	}
+	if ch.Chance(1, 6, "time passes between NewConnection and Connect") {
+		w.preDelay = []time.Duration{time.Millisecond, 5 * time.Second, time.Hour}[ch.Intn(3, "delay before Connect")]
+	}
+	if ch.Chance(1, 4, "client already used for other connections") {
+		w.priorConns = ch.Range(1, 2, "earlier connections of the client")
 	}
 	if ch.Chance(1, 4, "connection buffer") {
 		w.bufSize = 1 << 17 // small limits are C20's territory (they cut streams short and would blur these oracles)
@@ -576,6 +609,7 @@ func (w *clientWorld) newRequest() *http.Request {
 		req.GetBody = func() (io.ReadCloser, error) {
 			w.getBodyN++
 			if w.getBodyN == w.failGetAt {
+				w.getBodyFailSeq = w.tick()
 				w.o.fault("GetBody fails")
 				return nil, w.getBodyErr
 			}
@@ -696,8 +730,8 @@ func (w *clientWorld) describe() []string {
 	b := w.cfg
 	return []string{
 		fmt.Sprintf("backoff initial=%v mult=%v jitter=%v maxInterval=%v maxElapsed=%v maxRetries=%d", b.InitialInterval, b.Multiplier, b.Jitter, b.MaxInterval, b.MaxElapsedTime, b.MaxRetries),
-		fmt.Sprintf("validator=%d rejectAt=%d bodyKind=%d failGetAt=%d attemptLimit=%d cancelPlan=%d cancelAttempt=%d cancelOffset=%d cancelTime=%v buf=%d",
-			w.validator, w.rejectAt, w.bodyKind, w.failGetAt, w.maxAtt, w.cancelPlan, w.cancelAttempt, w.cancelOffset, w.cancelTime, w.bufSize),
+		fmt.Sprintf("validator=%d rejectAt=%d bodyKind=%d failGetAt=%d attemptLimit=%d cancelPlan=%d cancelAttempt=%d cancelOffset=%d cancelTime=%v buf=%d connectCalls=%d gaps=%v preDelay=%v priorConns=%d",
+			w.validator, w.rejectAt, w.bodyKind, w.failGetAt, w.maxAtt, w.cancelPlan, w.cancelAttempt, w.cancelOffset, w.cancelTime, w.bufSize, w.nCalls, w.callGaps, w.preDelay, w.priorConns),
 	}
 }
 
@@ -724,6 +758,12 @@ func (w *clientWorld) build() {
 			return sse.DefaultValidator(r)
 		}
 	}
+	for i := 0; i < w.priorConns; i++ {
+		// a Client is meant to be shared: earlier connections made from it must not change what this one does
+		other, _ := http.NewRequestWithContext(w.ctx, http.MethodGet, "http://sim.invalid/other", http.NoBody)
+		_ = client.NewConnection(other)
+		w.o.probe("Client reused for a further NewConnection")
+	}
 	req := w.newRequest()
 	w.conn = client.NewConnection(req)
 	if w.bufSize > 0 {
@@ -737,22 +777,37 @@ func (w *clientWorld) build() {
 	}
 	w.setupCallbacks()
 	sim.Spawn("connect", func() {
-		w.connectInvoked = w.tick()
-		w.connectAt = sim.Elapsed()
-		sim.Log("Connect", "invoke")
-		err := w.conn.Connect()
-		w.connectReturned = w.tick()
-		if n := len(w.attempts); n > 0 && w.attempts[n-1].endSeq == 0 {
-			w.attempts[n-1].endSeq = w.connectReturned
+		if w.preDelay > 0 {
+			sim.Sleep("before Connect", w.preDelay)
 		}
-		w.connectErr = err
-		w.connectRetAt = sim.Elapsed()
-		for _, e := range w.events {
-			if e.closeSeq == 0 {
-				e.closeSeq = w.connectReturned
+		for i := 0; i < w.nCalls; i++ {
+			c := &callRec{invoked: w.tick(), at: sim.Elapsed()}
+			w.calls = append(w.calls, c)
+			if i == 0 {
+				w.connectInvoked, w.connectAt = c.invoked, c.at
+			}
+			sim.Logf("Connect", "invoke (call %d)", i+1)
+			c.err = w.conn.Connect()
+			c.returned = w.tick()
+			c.retAt = sim.Elapsed()
+			if n := len(w.attempts); n > 0 && w.attempts[n-1].endSeq == 0 {
+				w.attempts[n-1].endSeq = c.returned
+			}
+			for _, e := range w.events {
+				if e.closeSeq == 0 {
+					e.closeSeq = c.returned
+				}
+			}
+			sim.Logf("Connect", "call %d returned %v", i+1, c.err)
+			if i+1 < w.nCalls {
+				w.o.probe("Connect called again on the same Connection")
+				if w.callGaps[i] > 0 {
+					sim.Sleep("between Connect calls", w.callGaps[i])
+				}
 			}
 		}
-		sim.Logf("Connect", "returned %v", err)
+		last := w.calls[len(w.calls)-1]
+		w.connectErr, w.connectRetAt, w.connectReturned = last.err, last.retAt, last.returned
 	})
 	switch w.cancelPlan {
 	case 1:
@@ -836,7 +891,7 @@ func (w *clientWorld) removeConcurrent(cb *cbRec) {
 func (w *clientWorld) newCB(typ string, all bool) *cbRec {
 	cb := &cbRec{id: len(w.cbs), typ: typ, all: all}
 	if all {
-		cb.typ = "*"
+		cb.typ = allTypes
 	}
 	w.cbs = append(w.cbs, cb)
 	return cb
@@ -847,7 +902,7 @@ func (w *clientWorld) setupCallbacks() {
 	// observer: records every dispatched event; registered first, never removed. Some runs do
 	// without it, so that states in which nobody is subscribed are reachable; the C13 oracle
 	// takes its events from the reference interpreter and the Read log instead.
-	obs := w.newCB("*", true)
+	obs := w.newCB(allTypes, true)
 	w.noObs = w.rc.Prop == "C13" && ch.Chance(1, 3, "no observer")
 	if w.noObs {
 		obs.all, obs.typ = false, "(no observer)"
@@ -882,11 +937,12 @@ func (w *clientWorld) afterObserver(ch *Chooser) {
 	if w.rc.Prop != "C13" && !ch.Chance(1, 4, "callbacks in this run") {
 		return
 	}
-	types := []string{"", "a", "b", "message", "*"}
+	// allTypes stands for SubscribeToAll; "*" and "all" are ordinary event types like any other
+	types := []string{"", "a", "b", "message", allTypes, "*", allTypes, "all"}
 	// before Connect
 	for i := 0; i < 4 && ch.Chance(1, 2, "callback before connect"); i++ {
 		t := types[ch.Intn(len(types), "callback type")]
-		cb := w.newCB(t, t == "*")
+		cb := w.newCB(t, t == allTypes)
 		w.subscribe(cb)
 		if ch.Chance(1, 5, "removed before connect") {
 			w.remove(cb)
@@ -915,7 +971,7 @@ func (w *clientWorld) afterObserver(ch *Chooser) {
 				switch ch.Weighted([]int{4, 3, 1, 1}, "subscription op") {
 				case 0:
 					ty := types[ch.Intn(len(types), "callback type")]
-					cb := w.newCB(ty, ty == "*")
+					cb := w.newCB(ty, ty == allTypes)
 					mine = append(mine, cb)
 					w.subscribe(cb)
 				case 1:
@@ -1004,10 +1060,62 @@ func (w *clientWorld) evaluate(res verifhook.Result, bubblePanic string) {
 	w.deriveEvents()
 	w.checkEvents()
 	w.checkC10()
-	w.checkC11()
-	w.checkC12()
+	for i := range w.calls {
+		w.forCall(i, func() {
+			w.checkC10Call()
+			w.checkC11()
+			w.checkC12()
+		})
+	}
 	w.checkC13()
 	w.clientProbes()
+}
+
+// forCall runs f with the world narrowed to the i-th Connect call: its attempts, its announced
+// retries, its invocation and return.
+func (w *clientWorld) forCall(i int, f func()) {
+	c := w.calls[i]
+	sa, sr := w.attempts, w.retries
+	si, sret, serr, sat, sretAt := w.connectInvoked, w.connectReturned, w.connectErr, w.connectAt, w.connectRetAt
+	defer func() {
+		w.attempts, w.retries = sa, sr
+		w.connectInvoked, w.connectReturned, w.connectErr, w.connectAt, w.connectRetAt = si, sret, serr, sat, sretAt
+		w.callIdx, w.b1Unclear = 0, false
+	}()
+	w.attempts, w.retries = nil, nil
+	w.b1Unclear = false
+	for _, a := range sa {
+		switch {
+		case a.startSeq > c.invoked && a.startSeq < c.returned:
+			w.attempts = append(w.attempts, a)
+		case a.startSeq < c.invoked && a.kind == attStream:
+			for _, r := range a.ref.Retries {
+				if r.Millis > 0 {
+					// whether a retry value outlives the Connect call it was received in is not stated
+					w.b1Unclear = true
+				}
+			}
+		}
+	}
+	for _, r := range sr {
+		if r.seq > c.invoked && r.seq < c.returned {
+			w.retries = append(w.retries, r)
+		}
+	}
+	w.callIdx = i
+	w.connectInvoked, w.connectReturned, w.connectErr, w.connectAt, w.connectRetAt = c.invoked, c.returned, c.err, c.at, c.retAt
+	f()
+}
+
+// bodyResetFailed: in the call being looked at the request body could not be re-obtained.
+func (w *clientWorld) bodyResetFailed() bool {
+	switch w.bodyKind {
+	case 3:
+		return len(w.retries) > 0 || w.callIdx > 0
+	case 4:
+		return w.getBodyFailSeq > w.connectInvoked && w.getBodyFailSeq < w.connectReturned
+	}
+	return false
 }
 
 // deriveEvents builds the list of dispatched events with conservative dispatch
@@ -1124,27 +1232,31 @@ func (w *clientWorld) checkC10() {
 			want = evs[len(evs)-1].ID
 		}
 	}
-	// body that cannot be re-obtained ends Connect
-	if len(w.attempts) >= 1 && w.connectReturned != 0 {
-		var ce *sse.ConnectionError
-		_ = ce
-		switch w.bodyKind {
-		case 3:
-			if len(w.attempts) > 1 {
-				o.violate("C10", "body-not-resettable", "a request body without GetBody was sent %d times", len(w.attempts))
+	if w.bodyKind == 3 && len(w.attempts) > 1 {
+		o.violate("C10", "body-not-resettable", "a request body without GetBody was sent %d times", len(w.attempts))
+	}
+}
+
+// checkC10Call (per Connect call): a body that cannot be re-obtained ends Connect.
+func (w *clientWorld) checkC10Call() {
+	o := w.o
+	var ce *sse.ConnectionError
+	if !w.bodyResetFailed() || w.cancelSeq != 0 {
+		return
+	}
+	switch w.bodyKind {
+	case 3:
+		if !(errors.As(w.connectErr, &ce) && errors.Is(w.connectErr, sse.ErrNoGetBody)) {
+			o.violate("C10", "body-not-resettable", "Connect call %d had to re-send a request without GetBody: it returned %v, want ErrNoGetBody inside *ConnectionError", w.callIdx+1, w.connectErr)
+		}
+	case 4:
+		for _, a := range w.attempts {
+			if a.startSeq > w.getBodyFailSeq {
+				o.violate("C10", "body-not-resettable", "GetBody failed at its call #%d but attempt #%d was sent in the same Connect call", w.failGetAt, a.n)
 			}
-			if len(w.retries) > 0 && !(errors.As(w.connectErr, &ce) && errors.Is(w.connectErr, sse.ErrNoGetBody)) && w.cancelSeq == 0 {
-				o.violate("C10", "body-not-resettable", "retry of a request without GetBody: Connect returned %v, want ErrNoGetBody inside *ConnectionError", w.connectErr)
-			}
-		case 4:
-			if w.getBodyN >= w.failGetAt {
-				if len(w.attempts) > w.failGetAt {
-					o.violate("C10", "body-not-resettable", "GetBody failed at its call #%d but %d attempts were sent", w.failGetAt, len(w.attempts))
-				}
-				if !(errors.As(w.connectErr, &ce) && errors.Is(w.connectErr, w.getBodyErr)) && w.cancelSeq == 0 {
-					o.violate("C10", "body-not-resettable", "GetBody failed with %v: Connect returned %v", w.getBodyErr, w.connectErr)
-				}
-			}
+		}
+		if !(errors.As(w.connectErr, &ce) && errors.Is(w.connectErr, w.getBodyErr)) {
+			o.violate("C10", "body-not-resettable", "GetBody failed with %v: Connect returned %v", w.getBodyErr, w.connectErr)
 		}
 	}
 }
@@ -1185,7 +1297,7 @@ func (w *clientWorld) checkC11() {
 			permanent = "validator"
 		}
 	}
-	bodyReset := (w.bodyKind == 3 && len(w.retries) > 0) || (w.bodyKind == 4 && w.getBodyN >= w.failGetAt && w.failGetAt > 0)
+	bodyReset := w.bodyResetFailed()
 	if isCtx {
 		return
 	}
@@ -1219,6 +1331,7 @@ func (w *clientWorld) checkC11() {
 	}
 	// retries exhausted: budget check and identity of the last attempt's error
 	if la == nil {
+		o.violate("C11", "no-attempt", "Connect call %d returned %v without making an attempt; the context was not done and nothing permanent had happened", w.callIdx+1, err)
 		return
 	}
 	w.checkExhausted(desc)
@@ -1257,16 +1370,25 @@ func (w *clientWorld) checkC11() {
 // earliest / latest instant at which the series can have started (a server
 // retry field restarts it somewhere within its connection).
 func (w *clientWorld) baseIntervals() (ks []int, bases []time.Duration, resetLo, resetHi []time.Duration) {
+	ks, bases, resetLo, resetHi, _ = w.baseIntervals2()
+	return
+}
+
+// baseIntervals2 also tells for which retries b_1 is unclear: the series was not restarted by a
+// connection of this Connect call and an earlier call's connection carried a retry field.
+func (w *clientWorld) baseIntervals2() (ks []int, bases []time.Duration, resetLo, resetHi []time.Duration, unclear []bool) {
 	e := w.effective
 	k := 0
 	b1 := e.InitialInterval
 	lo, hi := w.connectAt, w.connectAt
 	ai := 0
+	fresh := true
 	for _, r := range w.retries {
 		for ai < len(w.attempts) && w.attempts[ai].startSeq < r.seq {
 			a := w.attempts[ai]
 			ai++
 			if a.kind == attStream && !(w.validator == 2 && a.n == w.rejectAt) {
+				fresh = false
 				k = 0
 				b1 = e.InitialInterval
 				lo, hi = a.connected, a.connected
@@ -1283,6 +1405,7 @@ func (w *clientWorld) baseIntervals() (ks []int, bases []time.Duration, resetLo,
 		bases = append(bases, b1)
 		resetLo = append(resetLo, lo)
 		resetHi = append(resetHi, hi)
+		unclear = append(unclear, fresh && w.b1Unclear)
 	}
 	return
 }
@@ -1302,12 +1425,15 @@ func (w *clientWorld) expectedBase(b1 time.Duration, k int) float64 {
 func (w *clientWorld) checkC12() {
 	o := w.o
 	e := w.effective
-	ks, bases, _, resets := w.baseIntervals()
+	ks, bases, _, resets, unclear := w.baseIntervals2()
 	for i, r := range w.retries {
 		k := ks[i]
 		want := w.expectedBase(bases[i], k)
 		if want > 4e18 {
 			continue // beyond what a time.Duration can hold: outside the property's bounds
+		}
+		if unclear[i] {
+			continue
 		}
 		// integral nanoseconds: every growth step may lose up to 1 ns, which later steps multiply
 		tol := 2.0 + want*1e-9
@@ -1350,7 +1476,7 @@ func (w *clientWorld) checkC12() {
 			if next.start-r.at != r.d {
 				o.violate("C12", "wait-not-used", "retry #%d announced a wait of %v at %v but the next attempt started at %v (%v later)", i+1, r.d, r.at, next.start, next.start-r.at)
 			}
-		} else if bodyReset := w.bodyKind == 3 || (w.bodyKind == 4 && w.failGetAt > 0 && w.getBodyN >= w.failGetAt); bodyReset {
+		} else if w.bodyResetFailed() {
 			// the body could not be re-obtained for this retry: Connect ends instead (C10)
 		} else if w.cancelSeq == 0 || w.cancelSeq > w.connectReturned {
 			o.violate("C12", "retry-without-attempt", "retry #%d was announced but no attempt followed and the context was not cancelled", i+1)
@@ -1388,7 +1514,9 @@ func (w *clientWorld) checkExhausted(desc func() string) {
 		k, b1, reset = ks[n-1]+1, bases[n-1], resets[n-1]
 	}
 	la := w.attempts[len(w.attempts)-1]
+	unclear := w.b1Unclear
 	if la.kind == attStream && !(w.validator == 2 && la.n == w.rejectAt) {
+		unclear = false
 		k, b1, reset = 1, e.InitialInterval, la.connected
 		if n := len(la.ref.Retries); n > 0 && la.ref.Retries[n-1].Millis > 0 {
 			b1 = time.Duration(la.ref.Retries[n-1].Millis) * time.Millisecond
@@ -1396,6 +1524,14 @@ func (w *clientWorld) checkExhausted(desc func() string) {
 	}
 	if w.cfg.MaxRetries > 0 && k > w.cfg.MaxRetries {
 		return // count exhausted
+	}
+	for _, a := range w.attempts {
+		if a.kind == attStream && !(w.validator == 2 && a.n == w.rejectAt) {
+			unclear = false
+		}
+	}
+	if e.MaxElapsedTime > 0 && unclear {
+		return // the size of the next wait is not determined (see forCall)
 	}
 	if e.MaxElapsedTime > 0 {
 		want := w.expectedBase(b1, k)
@@ -1530,7 +1666,7 @@ func init() {
 	stub := []string{"http.RoundTripper scripted per attempt (dial failure, rejected response, stream served in chooser-sized chunks, clean end / read error / hang)", "scheduler: synctest bubble + generated yield points", "request bodies of every kind"}
 	common := "each evaluation draws a Backoff configuration over its documented domain, a request body kind, a validator, a cancellation plan (after k attempts / at a byte offset / at a simulated instant) and then, attempt by attempt, an outcome and a stream (structured events with ids/types/retry fields and adversarial tails, or free-form bytes), served in chooser-sized chunks with optional latency on the fake clock. "
 	nontriv := " Non-trivial: at least two attempts or one dispatched event; distinct = distinct (configuration, per-attempt outcomes and streams, scheduling hash)."
-	assum := []string{"one Connect call per Connection", "retry values between 1 ms and 10^12 ms; histories whose b_k stays below 2^62 ns", "simulated transport models net/http's contract as go-sse uses it (RoundTrip error / response / Body.Read / context cancellation surfaces from Read)"}
+	assum := []string{"Connect may be called again on the same Connection after it returned (1-3 calls); each call has the full retry budget of the policy, and whether a server retry value outlives the call it was received in is left open", "retry values between 1 ms and 10^12 ms; histories whose b_k stays below 2^62 ns", "simulated transport models net/http's contract as go-sse uses it (RoundTrip error / response / Body.Read / context cancellation surfaces from Read)"}
 	register(&World{Name: "client", Level: "exploration", Rule: common + "Oracle: Last-Event-ID header and body of every attempt as a function of the attempt history (reference interpreter gives the last dispatched ID)." + nontriv, Real: real, Stub: stub, Assumptions: assum,
 		MustProbes: []string{"reconnect carrying Last-Event-ID", "ErrNoGetBody"}, Run: runClientWorld}, "C10")
 	register(&World{Name: "client", Level: "exploration", Rule: common + "Oracle: classification of Connect's return (never nil; context error iff cancelled; permanent errors at once; otherwise budget exhausted with the last attempt's error, read errors as themselves)." + nontriv, Real: real, Stub: stub, Assumptions: assum,
